@@ -194,6 +194,35 @@ def run_case(case, drv):
             res.fail(f"{form}:index-beyond-n", f"index {k} >= n={n} maps to {core.jsonable(u)}")
             break
     res.nontrivial = n >= 2 and ninadm >= 1
+    # ---------------- second phase (sequence-based): the problem is changed through the object (another node becomes the depot; sizes
+    # stay the same, which tuples are fixed does not) and the index maps are asked again
+    if form == "seq" and N >= 3 and V >= 1 and not res.failures and not res.disagreements:
+        new_depot = g["nodes"][1 + (case.get("seed", 0) % (N - 1))][0]
+        try:
+            o.set_depot(new_depot)
+            n2 = int(o.get_num_variables())
+            g2 = VU.graph_of(o)
+            has2 = {(a[0], a[1]) for a in g2["arcs"]}
+
+            def fixed2(p, k):
+                return p == 0 or p == L - 1 or (p == 1 and (0, k) not in has2) or (p == L - 2 and (k, 0) not in has2)
+            adm2 = {(v, p, k) for v in range(V) for p in range(L) for k in range(N) if not fixed2(p, k)}
+            vars2 = [(int(v), int(p), int(k)) for (v, p, k) in o.var_mapping]
+            if set(vars2) != adm2 or len(vars2) != n2 or len(set(vars2)) != len(vars2):
+                res.fail("seq:enumeration-after-set_depot", f"after set_depot({new_depot!r}) the enumerated set differs from the admissible set: missing "
+                                                            f"{sorted(adm2 - set(vars2))[:3]}, extra {sorted(set(vars2) - adm2)[:3]}")
+            for u in [(v, p, k) for v in range(V) for p in range(L) for k in range(N)]:
+                r = o.get_var_index(*u)
+                if u in adm2:
+                    if r is None or tuple(int(t) for t in o.get_var_tuple_index(int(r))) != u:
+                        res.fail("seq:lookup-after-set_depot", f"after set_depot({new_depot!r}) admissible tuple {u} maps to {r}")
+                        break
+                elif r is not None:
+                    res.fail("seq:lookup-after-set_depot", f"after set_depot({new_depot!r}) the fixed tuple {u} still maps to index {int(r)}")
+                    break
+            res.features.append("second-phase:set_depot")
+        except Exception as e:  # noqa
+            res.fail("seq:second-phase-raises", f"set_depot({new_depot!r}) + lookups raised {e!r}")
     return res
 
 
